@@ -774,6 +774,48 @@ public:
     charactersRaw(const XObjectPtr&     xobject);
 
 
+#if defined(APACHE_XALAN_C_VERIF)
+    // verification hook H1: the "residue" vector - logical sizes / positions (not capacities) of the stacks,
+    // caches and counters that reset() is meant to empty.  The order is fixed (harness/c06 names the entries).
+    template<class VectorT>
+    void
+    verifResidue(VectorT&   v) const
+    {
+        v.push_back((unsigned long)m_variablesStack.getStackSize());
+        v.push_back((unsigned long)m_elementRecursionStack.size());
+        v.push_back((unsigned long)m_formatterListeners.size());
+        v.push_back((unsigned long)m_printWriters.size());
+        v.push_back((unsigned long)m_outputStreams.size());
+        v.push_back((unsigned long)m_matchPatternCache.size());
+        v.push_back((unsigned long)m_keyTables.size());
+        v.push_back(m_countersTable.verifSize());
+        v.push_back((unsigned long)(m_sourceTreeResultTreeFactory.get() != 0));
+        v.push_back((unsigned long)(m_mode != 0));
+        v.push_back((unsigned long)m_currentTemplateStack.size());
+        v.push_back((unsigned long)(m_rootDocument != 0));
+        v.push_back((unsigned long)(m_stylesheetRoot != 0));
+        v.push_back((unsigned long)(m_xsltProcessor != 0));
+        v.push_back((unsigned long)m_copyTextNodesOnlyStack.size());
+        v.push_back((unsigned long)m_modeStack.size());
+        v.push_back((unsigned long)m_currentIndexStack.size());
+#if !defined(XALAN_RECURSIVE_STYLESHEET_EXECUTION)
+        v.push_back((unsigned long)m_xobjectPtrStack.size());
+        v.push_back((unsigned long)m_paramsVectorStack.size());
+        v.push_back((unsigned long)m_nodesToTransformStack.size());
+        v.push_back((unsigned long)m_processCurrentAttributeStack.size());
+        v.push_back((unsigned long)m_skipElementAttributesStack.size());
+        v.push_back((unsigned long)m_executeIfStack.size());
+        v.push_back((unsigned long)m_elementInvokerStack.size());
+        v.push_back((unsigned long)m_useAttributeSetIndexesStack.size());
+        v.push_back((unsigned long)m_mutableNodeRefListStack.verifInUse());
+        v.push_back((unsigned long)m_stringStack.verifInUse());
+        v.push_back((unsigned long)m_formatterToTextStack.verifInUse());
+        v.push_back((unsigned long)m_formatterToSourceTreeStack.verifInUse());
+#endif
+        m_xpathExecutionContextDefault.verifResidue(v);
+    }
+#endif
+
     // These interfaces are inherited from XPathExecutionContext...
 
     virtual void
